@@ -92,3 +92,33 @@ Theorem C03_opcode_enum :
      Ounsupported; Ounsupported].
 Proof. exact opcode_enum_ok. Qed.
 Print Assumptions C03_opcode_enum.
+
+(* Frame property of a store  arr[from:to] = v  (opcode amov, Assign.SSA on an
+   element or field, copy()): for every value list, every value operand ov of
+   ANY width (a literal in its 32/64-bit container, a source array longer than
+   the destination range), every array operand and all bounds from <= to <=
+   width of the result: every bit of the result outside [from,to) is the bit of
+   the array operand (cut / zero-padded to the result width) ... *)
+Theorem C03_amov_frame : forall vs ov oa from to out aux i,
+  (from <= to)%nat -> (to <= s_bits out)%nat ->
+  (i < N.of_nat from \/ N.of_nat to <= i)%N ->
+  N.testbit (eval_instr vs (mkInstr Oamov [ov; oa; kconst from; kconst to] out aux)) i
+  = N.testbit (norm (s_bits out) (opnd_val vs oa)) i.
+Proof. exact amov_instr_frame. Qed.
+Print Assumptions C03_amov_frame.
+
+(* ... and the bits [from,to) are the low to-from bits of the value. *)
+Theorem C03_amov_slot : forall vs ov oa from to out aux,
+  (from <= to)%nat -> (to <= s_bits out)%nat ->
+  slice_sem from (to - from) (eval_instr vs (mkInstr Oamov [ov; oa; kconst from; kconst to] out aux))
+  = norm (to - from) (opnd_val vs ov).
+Proof. exact amov_instr_slot. Qed.
+Print Assumptions C03_amov_slot.
+
+(* The same at the source level (Mini.store_sem, the meaning of x[k] = e and
+   x.f = e): bits outside the slot keep the value of x. *)
+Theorem C03_store_frame : forall tw off w a v i, (off + w <= tw)%nat ->
+  (i < N.of_nat off \/ N.of_nat (off + w) <= i)%N ->
+  N.testbit (store_sem tw off w a v) i = N.testbit (norm tw a) i.
+Proof. exact store_sem_frame. Qed.
+Print Assumptions C03_store_frame.
